@@ -75,17 +75,17 @@ theorem v1Handoff_conserved (s : St) (x : Op) :
   · omega
   · simp only [List.count_append]; omega
 
-def takeBase (c : BCfg) (s : St) (a : Nat) (acc' : Acc) (sl : Bool) : St :=
-  { s with bm := { s.bm with buf := s.bm.buf.remove.1 }, slots := slotsAfter c s sl, loop := .cycle a acc' }
+def takeBase (c : BCfg) (s : St) (i a : Nat) (acc' : Acc) (sl : Bool) : St :=
+  { s with bm := { s.bm with buf := removeAt s.bm.buf i }, slots := slotsAfter c s sl, loop := .cycle a acc' }
 
-theorem afterTake_items (c : BCfg) (s : St) (a : Nat) (acc' : Acc) (sl : Bool) (x : Op) :
-    (afterTake c s a acc' sl).inserted.count x + s.bm.buf.remove.1.items.count x
-      = s.inserted.count x + (afterTake c s a acc' sl).bm.buf.items.count x := by
+theorem afterTake_items (c : BCfg) (s : St) (i a : Nat) (acc' : Acc) (sl : Bool) (x : Op) :
+    (afterTake c s i a acc' sl).inserted.count x + (removeAt s.bm.buf i).items.count x
+      = s.inserted.count x + (afterTake c s i a acc' sl).bm.buf.items.count x := by
   unfold afterTake
   cases c.gen with
   | v2 => simp [afterTakeV2]
   | v1 =>
-    have := v1Handoff_conserved (takeBase c s a acc' sl) x
+    have := v1Handoff_conserved (takeBase c s i a acc' sl) x
     simpa [afterTakeV1, takeBase] using this
 
 theorem enqOk_conserved (s : St) (k : Nat) (op : Op) (hi : Conserved s) : Conserved (enqOk s k op) := by
@@ -148,10 +148,9 @@ theorem step_conserved (c : BCfg) (s s' : St) (l : Label) (h : step c s l = some
         split at h
         · cases h
         · rename_i op hop
-          have hrem : ∀ x, s.bm.buf.remove.1.items.count x + (if op = x then 1 else 0) = s.bm.buf.items.count x := by
+          have hrem : ∀ x, (removeAt s.bm.buf i).items.count x + (if op = x then 1 else 0) = s.bm.buf.items.count x := by
             intro x
-            have : s.bm.buf.remove.1.items = s.bm.buf.items.eraseIdx i := by simp only [Buf.remove, hcur]; split <;> rfl
-            rw [this]; exact count_eraseIdx _ i op x hop
+            exact count_eraseIdx _ i op x hop
           have hopen : ∀ x, cntOpen x s = cntB x acc.openB := by intro x; unfold cntOpen; rw [hloop]
           split at h
           · cases h
@@ -166,7 +165,7 @@ theorem step_conserved (c : BCfg) (s s' : St) (l : Label) (h : step c s l = some
             intro x
             have h1 := stepOp_conserve (cycleCfg c allow) acc (slotFree c s) op x hs
             simp only [optCnt] at h1
-            have h2 := afterTake_items c s allow acc' slot x
+            have h2 := afterTake_items c s i allow acc' slot x
             have := hi x
             rw [hopen x] at this
             simp only [afterTake_batches, afterTake_discarded, cntOpen, afterTake_loop]
@@ -178,8 +177,8 @@ theorem step_conserved (c : BCfg) (s s' : St) (l : Label) (h : step c s l = some
             obtain ⟨w, b⟩ := p
             have h1 := stepOp_conserve (cycleCfg c allow) acc (slotFree c s) op x hs
             simp only [optCnt] at h1
-            have h2 := afterTake_items c s allow acc' slot x
-            have h3 := raise_cntR c (afterTake c s allow acc' slot) (w, b) x
+            have h2 := afterTake_items c s i allow acc' slot x
+            have h3 := raise_cntR c (afterTake c s i allow acc' slot) (w, b) x
             have := hi x
             rw [hopen x] at this
             simp only [raise_inserted, raise_bm, raise_discarded, cntOpen, raise_loop, afterTake_loop, h3,
